@@ -170,6 +170,9 @@ def _run_shard(k):
                 props.add(c.prop)
             detail = ''
             what = 'the process was killed while executing the call (%s)' % signame
+            if signame == 'SIGVTALRM':
+                what = 'the call did not return within its CPU-time budget (bounded-progress restatement of termination)'
+                props = {'C14'} | ({c.prop} if c.prop else set())
             if tool and tool.startswith('miri:'):
                 try:
                     etxt = open(os.path.join(tmp, 'shard%d.err.%d' % (k, crash_run[i]))).read()
